@@ -112,3 +112,23 @@ func (p *Pty) Sync() ([]byte, error) {
 	}
 	return nil, fmt.Errorf("pty marker not seen")
 }
+
+// EndMarker terminates the stream in SyncRaw.
+const EndMarker = "\x1b[998m"
+
+// SyncRaw writes a distinct end marker and returns everything before it,
+// keeping the per-frame markers (the engine writes one after every render
+// cycle to delimit frames).
+func (p *Pty) SyncRaw() ([]byte, error) {
+	if _, err := p.Slave.Write([]byte(EndMarker)); err != nil {
+		return nil, err
+	}
+	for i := 0; i < 50000; i++ {
+		b := p.Bytes()
+		if j := bytes.Index(b, []byte(EndMarker)); j >= 0 {
+			return b[:j], nil
+		}
+		time.Sleep(100 * time.Microsecond)
+	}
+	return nil, fmt.Errorf("pty end marker not seen")
+}
